@@ -177,7 +177,11 @@ func runC16(c *fw.Ctx) {
 	// two packages of one name whose paths are a directory and a sub-directory of it; one of the
 	// references is added after decoration, so the restorer has to add the import and rename
 	parentChild := "package p\n\nimport (\n\t\"a/x/chi\"\n\t\"fmt\"\n)\n\nfunc f() {\n\tchi.A()\n\tfmt.Println()\n\tc16AddedChi()\n}\n"
-	for _, s := range []struct{ n, s string }{{"synthetic/clash", clash}, {"synthetic/dot", dot}, {"synthetic/clash-with-blank", clashBlank}, {"synthetic/clash-parent-child", parentChild}, {"synthetic/raw-strings", raw}} {
+	for _, s := range []struct{ n, s string }{{"synthetic/clash", clash}, {"synthetic/dot", dot}, {"synthetic/clash-with-blank", clashBlank}, {"synthetic/clash-parent-child", parentChild}, {"synthetic/raw-strings", raw},
+		// qualified identifiers that carry decorations of their own (merged into one identifier under
+		// import management), twice with different comment texts
+		{"synthetic/qualified-decorations-1", layoutZoo()["qualified-identifier-comments"]},
+		{"synthetic/qualified-decorations-2", strings.NewReplacer("// why", "// second file: why", "/* blk */", "/* second file */", "// own line", "// second file: own line", "// after", "// second file: after").Replace(layoutZoo()["qualified-identifier-comments"])}} {
 		ref := &c16Ref{name: s.n, src: []byte(s.s)}
 		b, _ := rtParsePrint(ref.src)
 		ref.plain = string(b)
@@ -191,6 +195,12 @@ func runC16(c *fw.Ctx) {
 		refs = append(refs, ref)
 	}
 
+	var synth []*c16Ref
+	for _, rf := range refs {
+		if strings.HasPrefix(rf.name, "synthetic/") {
+			synth = append(synth, rf)
+		}
+	}
 	// hook handler: overlap counting, interleaving hashing, yields
 	var inResolver, maxOverlap, events int64
 	var hits, misses int64
@@ -320,6 +330,12 @@ func runC16(c *fw.Ctx) {
 					}
 					for k := 0; k < opsPer; k++ {
 						ref := refs[gr.Intn(len(refs))]
+						if round%2 == 1 && len(synth) > 0 {
+							// every other round works on the synthetic files only (name clashes, raw
+							// strings, decorated qualified identifiers): the rare paths are then taken
+							// by many goroutines at once
+							ref = synth[gr.Intn(len(synth))]
+						}
 						res := result{g: g, ref: ref}
 						switch gr.Intn(8) {
 						case 7:
